@@ -6,6 +6,7 @@ import operator
 from datetime import date
 from datetime import datetime
 from datetime import timedelta
+from datetime import timezone
 from typing import TYPE_CHECKING
 from typing import Generic
 from typing import TypeVar
@@ -30,6 +31,25 @@ if TYPE_CHECKING:
 
 
 _T = TypeVar("_T", bound=date)
+
+
+def _is_after(first: date, second: date) -> bool:
+    """
+    Whether first denotes a later point in time than second.
+
+    Two aware datetimes sharing the same tzinfo are compared by the standard
+    library on their wall clock fields only (fold is ignored),
+    which is wrong inside a repeated hour.
+    """
+    if (
+        isinstance(first, datetime)
+        and isinstance(second, datetime)
+        and first.tzinfo is not None
+        and first.tzinfo is second.tzinfo
+    ):
+        return first.astimezone(timezone.utc) > second.astimezone(timezone.utc)
+
+    return first > second
 
 
 class Interval(Duration, Generic[_T]):
@@ -60,7 +80,7 @@ class Interval(Duration, Generic[_T]):
         ):
             raise TypeError("can't compare offset-naive and offset-aware datetimes")
 
-        if absolute and start > end:
+        if absolute and _is_after(start, end):
             end, start = start, end
 
         _start = start
@@ -176,7 +196,7 @@ class Interval(Duration, Generic[_T]):
                 _end = cast(_T, date(end.year, end.month, end.day))
 
         self._invert = False
-        if start > end:
+        if _is_after(start, end):
             self._invert = True
 
             if absolute:
